@@ -122,6 +122,8 @@ def _cell_value(cell, calc):
 
 
 def _same_float(a, b, rel=REL):
+    if a == b:
+        return True
     if math.isnan(a) or math.isnan(b):
         return math.isnan(a) and math.isnan(b)
     return abs(a - b) <= ABS + rel * max(abs(a), abs(b))
@@ -323,8 +325,11 @@ def correspondence(ctx):
                     continue
                 if not _same_float(v, mat[a][b]):
                     if a != b and math.isnan(v) != math.isnan(mat[a][b]):
-                        mg = U.validity_margin(calc, seqs[a][1], seqs[b][1], "ACGT" if moltype == "dna" else "ACGU")
-                        if mg is not None and mg < 1e-9:
+                        # an exactly-zero log argument / determinant somewhere in the alignment (the duplicate aliasing can
+                        # carry that pair's value into other cells): float noise decides validity, not a model question
+                        cn = "ACGT" if moltype == "dna" else "ACGU"
+                        mgs = [U.validity_margin(calc, seqs[x][1], seqs[y][1], cn) for x in range(n) for y in range(x + 1, n)]
+                        if any(mg is not None and mg < 1e-9 for mg in mgs):
                             delicate_any = True
                             bump(out, "delicate_skipped")
                             continue
@@ -523,6 +528,13 @@ def _check_alignment(out, moltype, canon, seqs, calcs, rng=None, relations=True)
             rng.shuffle(perm)
             pseqs = [(nm, "".join(s[k] for k in perm)) for nm, s in seqs]
             pm, _ = _impl_matrix(calc, _make_aln(pseqs, moltype), names)
+            delicate = any(
+                (mg := U.validity_margin(calc, seqs[x][1], seqs[y][1], canon)) is not None and mg < 1e-9
+                for x in range(n) for y in range(x + 1, n)
+            )
+            if delicate:
+                bump(out, "oracle", "delicate-relations-skipped")
+                continue
             for a in range(n):
                 for b in range(n):
                     if not _same_float(pm[a][b], mat[a][b], rel=1e-12):
